@@ -209,7 +209,7 @@ def run(rep: Report, tier: str) -> None:
         for hname in helpers:
             eqf = set(eqf) | _self_attrs(ygl_cls.methods[hname].node, ygl_cls.methods[hname].param_names[0])
         eq_ok = need <= {a.lstrip("_") for a in eqf}
-    rep.check(eq_ok and hash_ok, ra, CD, "YearlyGainLoss.__eq__", "lines with different keys are different set elements (equality covers year, asset, type, long/short)", f"YearlyGainLoss equality reads {sorted(a.lstrip('_') for a in (eqf or []))} (hash: {sorted(hsf) if hsf is not None else 'default'}); the lines are collected in a set, so two lines whose keys differ only in a field equality ignores collapse into one and the fractions of the other belong to no line", loc(ygl_cls.node))
+    rep.check(eq_ok and hash_ok, ra, CD, "YearlyGainLoss.__eq__", "lines with different keys are different set elements (equality covers year, asset, type, long/short)", f"YearlyGainLoss equality reads {sorted(a.lstrip('_') for a in (eqf or []))} (hash: {sorted(hsf) if hsf is not None else 'default'}); the lines are collected in a set, so two lines whose keys differ only in a field equality ignores collapse into one and the fractions of the other belong to no line", loc(ygl_cls.node), definite=True)
 
     # ---------------------------------------------------------------- C06.d (call site, from filter)
     init_fi = prog.func(CD, "ComputedData.__init__")
